@@ -27,6 +27,9 @@ def _call_periodic(loop: asyncio.BaseEventLoop, name, interval, callback):
     def run(handle, fn=callback):
         r = fn()
         if r:
+            if handle.delegate is None:
+                # cancelled from inside the callback: do not re-arm
+                return
             if interval == 0:
                 handle.delegate = loop.call_soon(run, handle)
             else:
